@@ -28,7 +28,19 @@ def builtin_set(ip, st, pos, kws):
     if pos:
         view = consume_view(ip, st, pos[0])
         if view.items is None:
+            from .lib_acc2 import set_of_values          # a set of context values (symbolic size): pyvc/lib_acc2.py
+            r = set_of_values(ip, st, view)
+            if r is not None:
+                return r
+            from .iet import set_of_keys          # a set of strings (symbolic size): pyvc/iet.py
+            r = set_of_keys(ip, st, view)
+            if r is not None:
+                return r
             raise U("set() of a sequence of symbolic length")
+        if any(not isinstance(x, Str) for x in view.items) and \
+                all(isinstance(x, Str) or (isinstance(x, Opaque) and x.sort == "Key") for x in view.items):
+            from .lib_graph import SymSetCell          # a set of (symbolic) strings: pyvc/lib_graph.py
+            return [(st, ip.new_cell(st, SymSetCell(list(view.items))))]
         for x in view.items:
             if not isinstance(x, Str):
                 raise U("set() of values that are not concrete strings")
@@ -70,6 +82,12 @@ def builtin_map(ip, st, pos, kws):
     if kws or len(pos) != 2:
         raise U("map(...) call form")
     f, xs = pos
+    if isinstance(xs, Ref) and type(st.heap[xs.cid]).__name__ == "IterCell":
+        from .lib_graph import concrete_iter_items          # map(f, iter(<tuple>)): the remaining items, consumed
+        items = concrete_iter_items(ip, st, xs)
+        if items is None:
+            raise U("map over an iterator whose items are not known")
+        xs = Tup(items)
     if isinstance(xs, Opaque) and xs.sort == "Obj":
         iterable = OR(has_attr(ip, st, xs, "__iter__"), has_attr(ip, st, xs, "__getitem__"))
         if ip.spec_mode:
